@@ -49,6 +49,30 @@ async fn child(db: &str, topic: Topic, n: usize, acks: &[usize], steps: usize, l
 #[tokio::main]
 async fn main() {
     let argv: Vec<String> = std::env::args().collect();
+    if argv.len() > 1 && argv[1] == "--child-forged" {
+        // first run of the rejected-operation scenario, in a process of its own that is killed at the end (a node dropped
+        // inside the parent process may leave an open SQLite transaction behind that blocks the restarted node: that is a
+        // different matter (C10) and must not disturb this stand-in)
+        use p2panda::operation::Extensions;
+        use p2panda_core::cbor::encode_cbor;
+        use p2panda_core::test_utils::TestLog;
+        let (url, topic, with_body, log) = (&argv[2], topic_from(&argv[3]), argv[4] == "1", &argv[5]);
+        let ext = Extensions::from_topic(topic);
+        let panda = TestLog::new();
+        let o0 = panda.operation(&encode_cbor(&"first").unwrap(), ext.clone());
+        let o1 = panda.operation(&encode_cbor(&"second").unwrap(), ext.clone());
+        let forged = { let attacker = TestLog::new(); let body = if with_body { encode_cbor(&"forged").unwrap() } else { vec![] }; let mut op = attacker.operation(&body, ext.clone()); for _ in 0..7 { op = attacker.operation(&body, ext.clone()); } op.header.verifying_key = panda.author(); op };
+        let mut f = std::fs::OpenOptions::new().create(true).append(true).open(log).unwrap();
+        let ids = [hex(o0.hash.as_bytes()), hex(o1.hash.as_bytes())];
+        let node = p2panda::builder().database_url(url).ack_policy(AckPolicy::Explicit).spawn().await.unwrap();
+        let (tx, mut rx) = node.stream::<String>(topic).await.unwrap();
+        let imp = tx.import(futures_util::stream::iter(vec![o0, o1])).await.unwrap(); let _ = imp.await;
+        let mut seen = 0; while seen < 2 { match tokio::time::timeout(Duration::from_secs(120), rx.next()).await { Ok(Some(StreamEvent::Processed { .. })) => { writeln!(f, "P {}", ids[seen]).unwrap(); f.sync_all().unwrap(); seen += 1 }, Ok(Some(_)) => {}, _ => break } }
+        let imp = tx.import(futures_util::stream::iter(vec![forged])).await.unwrap(); let _ = imp.await;
+        let _ = tokio::time::timeout(Duration::from_millis(500), rx.next()).await;
+        writeln!(f, "F done").unwrap(); f.sync_all().unwrap();
+        std::process::abort();
+    }
     if argv.len() > 1 && argv[1] == "--child" {
         let acks: Vec<usize> = if argv[5].is_empty() { vec![] } else { argv[5].split(',').map(|x| x.parse().unwrap()).collect() };
         child(&argv[2], topic_from(&argv[3]), argv[4].parse().unwrap(), &acks, argv[6].parse().unwrap(), &argv[7]).await;
@@ -71,6 +95,7 @@ async fn main() {
             for steps in 1..=(n + acks.len()) {
                 case += 1;
                 n_eval += 1;
+                if std::env::var("RP_DEBUG").is_ok() { eprintln!("[c15] case {case}: n={n} acks={acks:?} steps={steps}"); }
                 let db = dir.join(format!("c{case}.sqlite"));
                 let log = dir.join(format!("c{case}.log"));
                 let url = format!("sqlite://{}?mode=rwc", db.display());
@@ -118,33 +143,24 @@ async fn main() {
     // operations; then invalid operations claiming that author arrive (forged signature, with and without a body, at a
     // higher sequence number); restart; both stored operations must be replayed
     for with_body in [false, true] {
-        use p2panda::operation::Extensions;
-        use p2panda_core::cbor::encode_cbor;
-        use p2panda_core::test_utils::TestLog;
         n_eval += 1;
         let db = dir.join(format!("f{}.sqlite", with_body as u8));
+        let log = dir.join(format!("f{}.log", with_body as u8));
         let url = format!("sqlite://{}?mode=rwc", db.display());
         let topic = Topic::random();
-        let ext = Extensions::from_topic(topic);
-        let panda = TestLog::new();
-        let o0 = panda.operation(&encode_cbor(&"first").unwrap(), ext.clone());
-        let o1 = panda.operation(&encode_cbor(&"second").unwrap(), ext.clone());
-        let want = vec![hex(o0.hash.as_bytes()), hex(o1.hash.as_bytes())];
-        let forged = { let attacker = TestLog::new(); let body = if with_body { encode_cbor(&"forged").unwrap() } else { vec![] }; let mut op = attacker.operation(&body, ext.clone()); for _ in 0..7 { op = attacker.operation(&body, ext.clone()); } op.header.verifying_key = panda.author(); op };
-        {
-            let node = p2panda::builder().database_url(&url).ack_policy(AckPolicy::Explicit).spawn().await.unwrap();
-            let (tx, mut rx) = node.stream::<String>(topic).await.unwrap();
-            let imp = tx.import(futures_util::stream::iter(vec![o0, o1])).await.unwrap(); let _ = imp.await;
-            let mut seen = 0; while seen < 2 { match tokio::time::timeout(Duration::from_secs(120), rx.next()).await { Ok(Some(StreamEvent::Processed { .. })) => seen += 1, Ok(Some(_)) => {}, _ => break } }
-            let imp = tx.import(futures_util::stream::iter(vec![forged])).await.unwrap(); let _ = imp.await;
-            let _ = tokio::time::timeout(Duration::from_millis(500), rx.next()).await;
-        }
+        let st = std::process::Command::new(&exe).args(["--child-forged", &url, &hex(topic.as_bytes()), if with_body { "1" } else { "0" }, log.to_str().unwrap()])
+            .stdout(std::process::Stdio::null()).stderr(std::process::Stdio::null()).status();
+        if st.is_err() { continue; }
+        let lines: Vec<String> = std::fs::read_to_string(&log).unwrap_or_default().lines().map(|l| l.to_string()).collect();
+        let want: Vec<String> = lines.iter().filter(|l| l.starts_with("P ")).map(|l| l[2..].to_string()).collect();
+        if want.len() != 2 || !lines.iter().any(|l| l.starts_with("F ")) { continue; }   // the first run did not get that far: nothing to judge
+        if std::env::var("RP_DEBUG").is_ok() { eprintln!("[c15]   first node dropped; restarting"); }
         let node = p2panda::builder().database_url(&url).ack_policy(AckPolicy::Explicit).spawn().await.unwrap();
         let (_tx, mut rx) = node.stream::<String>(topic).await.unwrap();
         let mut got = vec![];
         // two operations are expected: wait long for them (a correct node replays within milliseconds; a node that lost the
         // frontier never sends them, which costs one long wait only on a broken tree)
-        loop { match tokio::time::timeout(Duration::from_secs(if got.len() < 2 { 20 } else { 3 }), rx.next()).await { Ok(Some(StreamEvent::Processed { operation, .. })) => got.push(hex(operation.id().as_bytes())), Ok(Some(StreamEvent::ReplayEnded)) => break, Ok(Some(_)) => {}, _ => break } }
+        loop { match tokio::time::timeout(Duration::from_secs(if got.len() < 2 { 60 } else { 3 }), rx.next()).await { Ok(Some(StreamEvent::Processed { operation, .. })) => got.push(hex(operation.id().as_bytes())), Ok(Some(StreamEvent::ReplayEnded)) => break, Ok(Some(_)) => {}, _ => break } }
         if got == want { nonempty += 1; }
         if got != want && reported.insert("unacknowledged-operation-not-replayed-after-restart") {
             rp_core::report(true, "unacknowledged-operation-not-replayed-after-restart", json!({"stored_unacknowledged": 2, "then": format!("an invalid operation claiming the same author at seq 7 ({}) is imported and rejected", if with_body { "with a body" } else { "without a body" }), "restart": true}),
